@@ -86,7 +86,11 @@ impl Check for C07 {
                 let via = *g.pick(&["direct", "socks5", "socks5", "http", "http-plain", "udp", "raw", "burst", "raw-udp"]);
                 // burst: 2-3 requests for the same host with different ports started at the same instant
                 let more: Vec<u64> = (0..g.range(1, 2)).map(|_| g.range(1, 65_535)).collect();
-                json!({"host": h, "port": port, "more_ports": more, "via": via, "gap_ms": *g.pick(&[0u64, 0, 1_000, 59_000, 61_000, 150_000]), "pieces": g.range(1, 6), "pause_ms": if g.chance(20) { *g.pick(&[6_000u64, 20_000]) } else { 0 }})
+                json!({"host": h, "port": port, "more_ports": more, "via": via, "gap_ms": *g.pick(&[0u64, 0, 1_000, 59_000, 61_000, 150_000]), "pieces": g.range(1, 6), "pause_ms": if g.chance(20) { *g.pick(&[6_000u64, 20_000]) } else { 0 },
+                    // resolver outage: from this request on, lookups of this host fail. A request for it may then fail —
+                    // but if it is answered (from the cache, or from anything the implementation kept), it must still
+                    // be dialled at the requested port of an address of the host
+                    "dns_outage": g.chance(8)})
             })
             .collect();
         // tiny padding sizes on the client split the first packet (and with it the destination) over many records
@@ -126,6 +130,7 @@ impl Check for C07 {
             let mut name_reqs = 0u64;
             let mut repeats = 0u64;
             let mut seen_hosts = std::collections::BTreeSet::new();
+            let mut outage: std::collections::BTreeSet<String> = std::collections::BTreeSet::new();
             for (ri, r) in plan["reqs"].as_array().into_iter().flatten().enumerate() {
                 sleep(Duration::from_millis(r["gap_ms"].as_u64().unwrap_or(0))).await;
                 let hi = r["host"].as_u64().unwrap_or(0) as usize;
@@ -136,6 +141,15 @@ impl Check for C07 {
                     None => vec![host.parse().unwrap()],
                 };
                 let is_name = hosts[hi]["addrs"].is_array();
+                if is_name && r["dns_outage"].as_bool().unwrap_or(false) {
+                    world::with(|w| {
+                        if let Some(e) = w.net.dns.get_mut(&host) {
+                            e.fail = true;
+                        }
+                    });
+                    outage.insert(host.clone());
+                    world::fault_fired("dns.outage_begins_mid_history");
+                }
                 let mut via = r["via"].as_str().unwrap_or("direct");
                 if via == "udp" && is_name {
                     via = "raw-udp"; // create_udp_proxy takes a socket address only; the server's initial-request parser also takes names
@@ -165,6 +179,15 @@ impl Check for C07 {
                             Ok(Ok(Ok(()))) => {}
                             other => failed = Some(format!("{:?}", other.map(|r| r.map_err(|_| "timeout")))),
                         }
+                    }
+                    if failed.is_some() && outage.contains(&host) {
+                        // some of the burst may have failed (resolver outage); whatever was dialled must be right
+                        let new: Vec<SocketAddr> = world::with(|w| w.net.connect_log[before_tcp..].iter().filter(|c| c.dialed != server_addr() && c.dialed != SOCKS_ADDR.parse().unwrap() && c.dialed != HTTP_ADDR.parse().unwrap()).map(|c| c.dialed).collect()).unwrap_or_default();
+                        if new.iter().any(|a| !allowed.contains(&a.ip()) || !ports.contains(&a.port())) {
+                            out.viol("wrong-destination", "wrong-destination:burst:name:during-resolver-outage", format!("request #{} during a resolver outage asked for {} ports {:?}; the server dialled {:?}", ri, host, ports, new));
+                            break;
+                        }
+                        continue;
                     }
                     if let Some(e) = failed {
                         out.viol("request-failed", format!("request-failed:burst:{}", if is_name { "name" } else { "literal" }), format!("request #{} (burst to {} ports {:?}) failed without any fault: {}", ri, host, ports, e));
@@ -246,6 +269,17 @@ impl Check for C07 {
                     "raw-udp" => raw_udp_request(&host, port, r["pieces"].as_u64().unwrap_or(1) as usize, ri, r["pause_ms"].as_u64().unwrap_or(0)).await,
                     _ => raw_request(&host, port, r["pieces"].as_u64().unwrap_or(1) as usize, ri, r["pause_ms"].as_u64().unwrap_or(0)).await,
                 };
+                if res.is_err() && outage.contains(&host) {
+                    // legitimately failed (the resolver is down); nothing wrong may have been dialled meanwhile
+                    let new: Vec<SocketAddr> = world::with(|w| w.net.connect_log[before_tcp..].iter().filter(|c| c.dialed != server_addr() && c.dialed != SOCKS_ADDR.parse().unwrap() && c.dialed != HTTP_ADDR.parse().unwrap()).map(|c| c.dialed).collect()).unwrap_or_default();
+                    let sent: Vec<SocketAddr> = world::with(|w| w.net.udp_log[before_udp..].iter().map(|u| u.to).collect()).unwrap_or_default();
+                    if new.iter().chain(sent.iter()).any(|a| a.port() != port || !allowed.contains(&a.ip())) {
+                        out.viol("wrong-destination", format!("wrong-destination:{}:during-resolver-outage", sig_kind), format!("request #{} for {}:{} during a resolver outage failed, yet the server dialled {:?} / sent datagrams to {:?}", ri, host, port, new, sent));
+                        break;
+                    }
+                    world::probe("c07.request_failed_during_resolver_outage");
+                    continue;
+                }
                 if let Err(e) = res {
                     out.viol("request-failed", format!("request-failed:{}", sig_kind), format!("request #{} ({} {}:{}) failed without any fault: {}", ri, via, host, port, e));
                     break;
@@ -254,7 +288,7 @@ impl Check for C07 {
                 if via == "raw-udp" {
                     // the server's parser of the association request: all three address types, names through the cache
                     let sent: Vec<SocketAddr> = world::with(|w| w.net.udp_log[before_udp..].iter().map(|u| u.to).collect()).unwrap_or_default();
-                    let good = sent.len() == 1 && sent[0].port() == port && allowed.contains(&sent[0].ip());
+                    let good = (sent.len() == 1 && sent[0].port() == port && allowed.contains(&sent[0].ip())) || (sent.is_empty() && outage.contains(&host));
                     if !good {
                         let why = if sent.len() != 1 {
                             "datagram-count"
@@ -275,7 +309,7 @@ impl Check for C07 {
                     }
                 } else {
                     let new: Vec<(SocketAddr, &'static str)> = world::with(|w| w.net.connect_log[before_tcp..].iter().filter(|c| c.dialed != server_addr() && c.dialed != SOCKS_ADDR.parse().unwrap() && c.dialed != HTTP_ADDR.parse().unwrap()).map(|c| (c.dialed, c.outcome)).collect()).unwrap_or_default();
-                    let good = new.len() == 1 && new[0].0.port() == port && allowed.contains(&new[0].0.ip());
+                    let good = (new.len() == 1 && new[0].0.port() == port && allowed.contains(&new[0].0.ip())) || (new.is_empty() && outage.contains(&host));
                     if !good {
                         let why = if new.len() != 1 {
                             "dial-count"
@@ -321,7 +355,7 @@ impl Check for C07 {
         out
     }
     fn rule(&self) -> &'static str {
-        "one case = a history of 1-12 sequential requests over 1-4 hosts (IPv4 incl. 0.0.0.0/255.255.255.255/high octets, IPv6 incl. ::/mapped/full length, names of length 1,2,63,64,253,254,255 and random with 1-3 table addresses) x ports {0,1,80,255,256,443,65535,random} issued through create_proxy_stream, the SOCKS5 front-end, HTTP CONNECT, a plain HTTP request (origin or absolute form, with header lines that merely look like a Host header placed before the real one), a UDP association (through the client, or by a raw TLS peer whose association request names an IPv4/IPv6 address or a host name and is spread over 1-6 PSH frames), or a raw TLS client that spreads the destination over 1-6 PSH frames, with virtual gaps {0,1s,59s,61s,150s} (inside and beyond the 60 s cache lifetime), default or tiny-size padding scheme; oracle = the simulated network's connect / datagram log after each request; every case is non-trivial; distinct = distinct (plan hash, poll-order fingerprint)"
+        "one case = a history of 1-12 sequential requests over 1-4 hosts (IPv4 incl. 0.0.0.0/255.255.255.255/high octets, IPv6 incl. ::/mapped/full length, names of length 1,2,63,64,253,254,255 and random with 1-3 table addresses) x ports {0,1,80,255,256,443,65535,random} issued through create_proxy_stream, the SOCKS5 front-end, HTTP CONNECT, a plain HTTP request (origin or absolute form, with header lines that merely look like a Host header placed before the real one), a UDP association (through the client, or by a raw TLS peer whose association request names an IPv4/IPv6 address or a host name and is spread over 1-6 PSH frames), or a raw TLS client that spreads the destination over 1-6 PSH frames, with virtual gaps {0,1s,59s,61s,150s} (inside and beyond the 60 s cache lifetime), in 8% of the requests a resolver outage beginning for that host (later requests for it may fail, but whatever is dialled must still be the requested port of an address of the host), default or tiny-size padding scheme; oracle = the simulated network's connect / datagram log after each request; every case is non-trivial; distinct = distinct (plan hash, poll-order fingerprint)"
     }
     fn real_components(&self) -> Vec<&'static str> {
         vec!["Client::create_proxy_stream / create_udp_proxy / session pool", "SOCKS5 front-end", "HTTP proxy front-end (CONNECT)", "Server::listen / handle_connection / TcpProxyHandler::handle_stream / read_socks_addr", "resolve_host_with_cache + DNS cache (virtual clock)", "udp_proxy::handle_udp_over_tcp / read_initial_request", "rustls both ways", "Session / Stream / codec / padding"]
